@@ -742,7 +742,7 @@ func init() {
 		Meta: func(c *core.Ctx) core.Meta {
 			return core.Meta{
 				Level:       "exploration",
-				Rule:        "correlation: 1..32 concurrent askers x 1..200 asks through AskOnce / AskOnceWithTimeout(60 s) / AskChannel; the reply is a pure function of the request payload and a per-request nonce, the actor replies inline, from helper goroutines in shuffled order, or in reversed batches, so every asker can verify that it received exactly its own answer; timeouts as logical classes: 'in time' = 60 s timeout + immediate reply (an error is a violation), 'never' = timeout in {5 ms, 0, -1 ns, -1 h, 1 ns, 300 us} and no reply (the call itself is under the stuck detector), 'after' = the actor replies only after AskOnceWithTimeout has RETURNED ErrActorAskTimeout (signalled by the harness) under recover with a 10 s blocked-detector, 'queued' = the request waits behind a busy actor (mailbox capacity 0..2) beyond the asker's 3 ms timeout and is answered afterwards, 'racing' = PRNG delays around a 200-600 us timeout and the asker parked at ask.timeout.fired so that the reply lands between the timer and the close; afterwards a fresh ask with a 60 s timeout must be served; the asks of the timeout classes are built by AskNewGenerics, AskNewByOptionsGenerics / NewByOptions with caller supplied unbuffered and 1-buffered reply channels; asks handed over late to a busy unbuffered actor (busy 450 ms, timeout 300 ms, answered at once; 3 attempts); ask objects built 3.4 s before AskOnceWithTimeout(3 s) is called (3 attempts); scatter / gather of 2..8 AskChannel calls from one goroutine read in request order (stuck detector, arrival order); multi-step histories of 300 (thorough 1500) rounds {ask whose reply lands within +-100 us of its 150-350 us timeout, then an ask with a 60 s timeout answered immediately, which must not time out}; payload kinds int/string/struct/nil; repeated under -race. distinct_nontrivial = distinct scenarios",
+				Rule:        "correlation: 1..32 concurrent askers x 1..200 asks through AskOnce / AskOnceWithTimeout(60 s) / AskChannel; the reply is a pure function of the request payload and a per-request nonce, the actor replies inline, from helper goroutines in shuffled order, or in reversed batches, so every asker can verify that it received exactly its own answer; timeouts as logical classes: 'in time' = 60 s timeout + immediate reply (an error is a violation), 'never' = timeout in {5 ms, 0, -1 ns, -1 h, 1 ns, 300 us} and no reply (the call itself is under the stuck detector), 'after' = the actor replies only after AskOnceWithTimeout has RETURNED ErrActorAskTimeout (signalled by the harness) under recover with a 10 s blocked-detector, 'queued' = the request waits behind a busy actor (mailbox capacity 0..2) beyond the asker's 3 ms timeout and is answered afterwards, 'racing' = PRNG delays around a 200-600 us timeout and the asker parked at ask.timeout.fired so that the reply lands between the timer and the close; afterwards a fresh ask with a 60 s timeout must be served; the asks of the timeout classes are built by AskNewGenerics, AskNewByOptionsGenerics / NewByOptions with caller supplied unbuffered and 1-buffered reply channels; asks handed over late to a busy unbuffered actor (busy 450 ms, timeout 300 ms, answered at once; 3 attempts); ask objects built 3.4 s before AskOnceWithTimeout(3 s) is called (3 attempts); scatter / gather of 2..8 AskChannel calls from one goroutine read in request order (stuck detector, arrival order); multi-step histories of 300 (thorough 1500) rounds {ask whose reply lands within +-100 us of its 150-350 us timeout, then an ask with a 60 s timeout answered immediately, which must not time out}; payload kinds int/string/struct/nil; repeated under -race. distinct_nontrivial = distinct scenarios; (round 7) one ask object sent again six times with AskChannel (default and caller-supplied reply channel) with one-shot asks of another client in between",
 				Assumptions: []string{"a 60 s timeout is never hit by an immediately replying actor (safe direction only: a timeout error is a violation, finishing late is not)", "in the racing class either outcome (reply or timeout) is legal"},
 			}
 		},
